@@ -196,7 +196,7 @@ func New(seed uint64, strat Strategy) *Sched {
 		wake: make(chan struct{}, 1), stopCh: make(chan struct{}), active: true,
 		Pick: NewSplitMix(seed ^ 0xA5A5A5A5), Data: NewSplitMix(seed ^ 0x5A5A5A5A5A), Strat: strat, seed: seed,
 		prio: map[string]uint64{}, changeAt: map[int]int{}, weight: map[string]int{},
-		KeepLog: 600, MaxSteps: 5000000, dead: map[string]bool{}, exits: map[string]int{}, crashCnt: map[string]int{},
+		KeepLog: keepLogDefault(), MaxSteps: 5000000, dead: map[string]bool{}, exits: map[string]int{}, crashCnt: map[string]int{},
 		CrashSeen: map[string]int{}, IdleQuantum: 100 * time.Millisecond,
 		SiteHits: map[string]int{}, QStates: map[uint64]struct{}{}, lastSite: map[string]string{},
 	}
@@ -273,6 +273,19 @@ func BeforeGo(site string) string {
 	k := parent + ">" + site
 	s.spawn[k]++
 	return fmt.Sprintf("%s#%d", k, s.spawn[k])
+}
+
+// AfterFunc replaces time.AfterFunc in instrumented code: the callback's goroutine is
+// named at the time the timer is armed and parks at birth.
+func AfterFunc(site string, d time.Duration, f func()) *time.Timer {
+	n := BeforeGo(site)
+	if n == "" {
+		return time.AfterFunc(d, f)
+	}
+	return time.AfterFunc(d, func() {
+		Born(n)
+		f()
+	})
 }
 
 func Born(name string) {
@@ -920,4 +933,11 @@ func (s *Sched) stallBudget() time.Duration {
 		return time.Duration(s.Strat.StallBudgetMs) * time.Millisecond
 	}
 	return 20 * time.Second
+}
+
+func keepLogDefault() int {
+	if v, err := strconv.Atoi(os.Getenv("VERIF_KEEPLOG")); err == nil && v > 0 {
+		return v
+	}
+	return 600
 }
